@@ -34,7 +34,8 @@ BASE_PROFILE = dict(
     p_flush_fault=0.0,
     p_same_object=0.08,
     p_ctx_sync=0.0,
-    p_future_result=0.05,  # a task whose result is itself a future object  # logging contexts whose resume()/pause() make a synchronous asynq call  # a yielded container is yielded again / reached by two routes in one yield
+    p_future_result=0.05,
+    p_nonlifo=0.0,  # per block: two logging contexts entered A, G and left A, G (not nested), with statements between  # a task whose result is itself a future object  # logging contexts whose resume()/pause() make a synchronous asynq call  # a yielded container is yielded again / reached by two routes in one yield
     p_spawn=0.0,
     max_instances=300,
     sv_names=["sv0", "sv1", "at0"],
@@ -205,6 +206,7 @@ class Gen(object):
         rnd = self.rnd
         out = []
         n = rnd.randint(1, max(1, nmax))
+        nonlifo = allow_yield and self.p.get("p_nonlifo", 0) and rnd.random() < self.p["p_nonlifo"]
         w = dict(self.p["w_stmt"])
         if bdepth >= self.p["block_depth"]:
             w["try_"] = 0
@@ -276,6 +278,13 @@ class Gen(object):
                 if rnd.random() < self.p["p_item_fault"]:
                     self.faults["%s:%s" % (k, key)] = rnd.choice(self.p["item_fault_modes"])
                 out.append(["syncitem", self.new_site("y"), k, key])
+        if nonlifo and out and out[-1][0] not in ("raise", "ret"):
+            # open A ... open G ... close A ... close G : the two logging contexts overlap without nesting
+            a, g = self.new_site("na"), self.new_site("ng")
+            cuts = sorted(rnd.randint(0, len(out)) for _ in range(4))
+            ins = [(cuts[0], ["ctxopen", ["actx", a], a]), (cuts[1], ["ctxopen", ["actx", g], g]), (cuts[2], ["ctxclose", a]), (cuts[3], ["ctxclose", g])]
+            for pos, stmt in reversed(ins):
+                out.insert(pos, stmt)
         return out
 
     def program(self):
